@@ -76,7 +76,11 @@ thread_local! {
 thread_local! { static JUST_BLOCKED: Cell<bool> = const { Cell::new(false) }; }
 thread_local! { static IO_YIELD: RefCell<Option<Box<dyn FnMut() -> bool>>> = const { RefCell::new(None) }; }
 /// Decides, per asynchronous socket send, whether the send yields once before completing.
-pub fn set_io_yield_decider(f: Option<Box<dyn FnMut() -> bool>>) { IO_YIELD.with(|c| *c.borrow_mut() = f); }
+pub fn set_io_yield_decider(f: Option<Box<dyn FnMut() -> bool>>) {
+    IO_YIELD.with(|c| *c.borrow_mut() = f);
+    // a run that ended between a simulated WouldBlock and its retry must not decide the next run's first send
+    JUST_BLOCKED.with(|c| c.set(false));
+}
 pub fn set_defer_decider(f: Option<Box<dyn FnMut() -> bool>>) { DEFER.with(|c| *c.borrow_mut() = f); }
 thread_local! {
     /// spawn site of every internally spawned task that has not finished yet (leak diagnostics)
